@@ -53,5 +53,5 @@ if __name__ == "__main__":
     c = json.loads(sys.argv[1])
     try:
         print("RESULT " + json.dumps(canon(compute(build(c)))))
-    except (ValueError, NotImplementedError) as e:
+    except (ValueError, NotImplementedError, OverflowError) as e:
         print("RESULT " + json.dumps(["refused", type(e).__name__]))
